@@ -59,7 +59,7 @@ class SimThread:
         try:
             if sched.killing:
                 raise ThreadKilled()
-            if sched.tracer is not None:
+            if sched.tracer is not None and (not sched.preempt_threads or any(x in self.name for x in sched.preempt_threads)):
                 sys.settrace(sched.tracer)
             if self.target is not None:
                 self.target(*self.args, **self.kwargs)
@@ -231,6 +231,7 @@ class Scheduler:
         self.tracer = None
         self.preempt_p = float(cfg.get("preempt_p", 0.0))
         self.preempt_files = tuple(cfg.get("preempt_files", ("udp_socket.py",)))
+        self.preempt_threads = tuple(cfg.get("preempt_threads", ()))       # only threads whose name contains one of these are pre-empted at lines
         self.cost_p = float(cfg.get("cost_p", 0.0))
         self.preempt_stall_p = float(cfg.get("preempt_stall_p", 0.0))
         self.preempt_stall_max = float(cfg.get("preempt_stall_max", 1.0))
